@@ -23,3 +23,4 @@ P
 cd /verif
 run C14-a C14 --tier quick --only c14_between,c14_not_of_between,c14_in_list
 run C32-a C32 --tier quick --only c32_view_object_prefix_keys,c32_view_object_4_keys
+run C14-b C14 --tier quick --only c14_between,c14_not_of_between
